@@ -33,7 +33,7 @@ sys.path.insert(0, REPO)
 sys.path.insert(0, os.path.join(VERIF, "harness"))
 
 FORBIDDEN = re.compile(
-    r"\b(Admitted|admit|Axiom|Axioms|Parameter|Parameters|Conjecture|Conjectures|Hypothesis_global|"
+    r"\b(Admitted|admit|Axiom|Axioms|Parameter|Parameters|Conjecture|Conjectures|"
     r"Unset\s+Guard\s+Checking|Unset\s+Positivity\s+Checking|Unset\s+Universe\s+Checking|"
     r"bypass_check|type-in-type|impredicative-set|Admit\s+Obligations|give_up|native_compute)\b"
 )
@@ -107,7 +107,11 @@ def build_driver(pid, force=False):
     if not (os.path.exists(ext) and os.path.exists(drv)):
         return None
     exe = os.path.join(BUILD, f"drv_{low}")
-    srcs = [ext, drv, os.path.join(VERIF, "ocaml", "drv.ml")] + coq_files()
+    for d in requires_of(ext):
+        rc, out = coq_build(pid, root=d)
+        if rc != 0:
+            raise RuntimeError("coq build for extraction failed: " + out[-1500:])
+    srcs = [drv, os.path.join(VERIF, "ocaml", "drv.ml")] + deps_of(pid, root=ext)
     if (not force and os.path.exists(exe)
             and os.path.getmtime(exe) >= max(os.path.getmtime(s) for s in srcs)):
         return exe
@@ -116,7 +120,9 @@ def build_driver(pid, force=False):
         os.makedirs(gen, exist_ok=True)
         for f in glob.glob(os.path.join(gen, "*")):
             os.remove(f)
-        sh(f"timeout 600 coqc -Q {TH} AHK {ext}", cwd=gen, check=True, timeout=630)
+        with open(ext) as src, open(os.path.join(gen, "ExtractMain.v"), "w") as dst:
+            dst.write(src.read())
+        sh(f"timeout 600 coqc -Q {TH} AHK ExtractMain.v", cwd=gen, check=True, timeout=630)
         for f in (os.path.join(VERIF, "ocaml", "drv.ml"), drv):
             with open(f) as src, open(os.path.join(gen, os.path.basename(f)), "w") as dst:
                 dst.write(src.read())
@@ -183,22 +189,60 @@ def strip_comments(src):
     return "".join(out)
 
 
-def deps_of(pid):
-    """Coq sources Props/<pid>.v transitively requires inside AHK."""
-    seen, todo = [], [os.path.join(TH, "Props", pid + ".v")]
-    while todo:
-        f = todo.pop()
-        if f in seen or not os.path.exists(f):
-            continue
-        seen.append(f)
-        src = strip_comments(open(f).read())
-        for m in re.finditer(r"From\s+AHK\s+Require\s+(?:Import|Export)?\s*([^.]*(?:\.[A-Za-z_][^.\s]*)*)\.", src):
-            for mod in m.group(1).split():
-                todo.append(os.path.join(TH, *mod.split(".")) + ".v")
-        for m in re.finditer(r"Require\s+(?:Import|Export)?\s+((?:AHK\.[A-Za-z_.]+\s*)+)\.", src):
-            for mod in m.group(1).split():
-                todo.append(os.path.join(TH, *mod.split(".")[1:]) + ".v")
-    return seen
+def requires_of(f):
+    """AHK modules a Coq source requires (as file paths)."""
+    src = strip_comments(open(f).read())
+    out = []
+    for m in re.finditer(r"From\s+AHK\s+Require\s+(?:Import\s+|Export\s+)?(.*?)\.(?=\s|$)", src, re.S):
+        for mod in m.group(1).split():
+            out.append(os.path.join(TH, *mod.split(".")) + ".v")
+    for m in re.finditer(r"(?<![A-Za-z_])Require\s+(?:Import\s+|Export\s+)?(.*?)\.(?=\s|$)", src, re.S):
+        for mod in m.group(1).split():
+            if mod.startswith("AHK."):
+                out.append(os.path.join(TH, *mod.split(".")[1:]) + ".v")
+    return out
+
+
+def deps_of(pid, root=None):
+    """Coq sources Props/<pid>.v transitively requires inside AHK, in dependency (topological) order."""
+    order, seen = [], set()
+
+    def visit(f):
+        if f in seen:
+            return
+        seen.add(f)
+        if not os.path.exists(f):
+            raise RuntimeError(f"missing Coq source {f}")
+        for d in requires_of(f):
+            visit(d)
+        order.append(f)
+    visit(root or os.path.join(TH, "Props", pid + ".v"))
+    return order
+
+
+def coq_build(pid, root=None, timeout=1500):
+    """Incremental full-.vo build of exactly what a property needs (plain coqc, per-file locks).
+    Independent of other properties' files, so concurrent work on them cannot disturb it."""
+    log = ""
+    try:
+        files = deps_of(pid, root)
+    except RuntimeError as e:
+        return 1, str(e)
+    for f in files:
+        vo = f[:-2] + ".vo"
+        with Lock("coqc_" + hashlib.sha1(f.encode()).hexdigest()[:16]):
+            stale = (not os.path.exists(vo)) or os.path.getmtime(vo) < os.path.getmtime(f)
+            if not stale:
+                for d in requires_of(f):
+                    dvo = d[:-2] + ".vo"
+                    if os.path.exists(dvo) and os.path.getmtime(dvo) > os.path.getmtime(vo):
+                        stale = True
+            if stale:
+                rc, out = sh(f"timeout {timeout} coqc -Q theories AHK {os.path.relpath(f, COQ)}", cwd=COQ, timeout=timeout + 30)
+                log += out
+                if rc != 0:
+                    return rc, log + f"\n(coqc failed on {os.path.relpath(f, COQ)} rc={rc})"
+    return 0, log
 
 
 def proof_stage(pid, tier):
@@ -208,7 +252,11 @@ def proof_stage(pid, tier):
     if not os.path.exists(props):
         res["problems"].append("no Props file")
         return res
-    files = deps_of(pid)
+    try:
+        files = deps_of(pid)
+    except RuntimeError as e:
+        res["problems"].append(str(e))
+        return res
     if tier == "thorough":
         # rebuild this property's own proof files from scratch
         for f in files:
@@ -219,8 +267,9 @@ def proof_stage(pid, tier):
                     os.remove(f[:-2] + ext)
                 except OSError:
                     pass
-    rc, out = coq_make(os.path.relpath(props, COQ) + "o")
-    res["checker_cmd"] = (f"cd {COQ} && make -j16 theories/Props/{pid}.vo (coq_makefile, full .vo) ; "
+    rc, out = coq_build(pid)
+    res["checker_cmd"] = (f"cd {COQ} && coqc -Q theories AHK <each of the {len(files)} files Props/{pid}.v depends on, in order> "
+                          f"(full .vo; setup_cmd additionally runs coq_makefile + make -j16 over everything and coqchk -o); "
                           f"coqc -Q theories AHK theories/Props/{pid}.v (Print Assumptions)")
     src = strip_comments(open(props).read())
     theorems = re.findall(r"^\s*Theorem\s+([A-Za-z0-9_']+)", src, re.M)
@@ -284,10 +333,9 @@ def proof_stage(pid, tier):
 
 def allowed_axioms(pid):
     """Standard-library axioms a property is recorded as relying on (coq/axioms.json)."""
-    p = os.path.join(COQ, "axioms.json")
+    p = os.path.join(COQ, "axioms.d", pid + ".json")
     if os.path.exists(p):
-        d = json.load(open(p))
-        return set(d.get(pid, [])) | set(d.get("*", []))
+        return set(json.load(open(p)))
     return set()
 
 
@@ -296,10 +344,13 @@ def allowed_axioms(pid):
 # ----------------------------------------------------------------------------
 
 def load_findings(pid):
+    out = []
     p = os.path.join(VERIF, "known_findings.json")
-    if not os.path.exists(p):
-        return []
-    return [f for f in json.load(open(p))["findings"] if f["property"] == pid and f["kind"] == "known"]
+    if os.path.exists(p):
+        out += json.load(open(p))["findings"]
+    for q in sorted(glob.glob(os.path.join(VERIF, "known_findings.d", "*.json"))):
+        out += json.load(open(q))
+    return [f for f in out if f["property"] == pid and f["kind"] == "known"]
 
 
 def match_finding(findings, key):
